@@ -127,7 +127,8 @@ def xorencode(plain, nonce, stub=b"", marker=True, size_ok=True, trailing=b""):
         e = bytes(a ^ b for a, b in zip(plain[i : i + 4], prev))
         out += e
         prev = e
-    size = len(plain) if size_ok else (len(plain) + 13) & 0xFFFFFFFF
+    # a "wrong" size must satisfy neither len(plain) nor the size relation with the trailing bytes
+    size = len(plain) if size_ok else (len(plain) + len(trailing) + 13) & 0xFFFFFFFF
     encsize = bytes(a ^ b for a, b in zip(struct.pack("<I", size), nonce))
     head = stub + (b"\xff\xff\xff" if marker else b"")
     return head + nonce + encsize + bytes(out) + trailing, len(head)
